@@ -257,6 +257,13 @@ class World:
                 except ValueError:
                     out = "ValueError"
                 ev["names"] = names
+            elif op == "chain_toggle":
+                ruler = {"core": md.core.ruler, "block": md.block.ruler, "inline": md.inline.ruler,
+                         "inline2": md.inline.ruler2}[e["chain"]]
+                names = sorted(e["names"])
+                arg = names[0] if (len(names) == 1 and idx % 2 == 0) else names
+                getattr(ruler, e["kind"])(arg, True)
+                ev["names"] = names
             elif op == "setopt":
                 v = opt_value(e["v"], make_highlight(self.arms[i]), e["k"])
                 if e["route"] == "attr" and e["k"] in self.K["attrkeys"]:
